@@ -340,11 +340,12 @@ def curated_programs():
     # unencodable output after some output, on stdout and on stderr
     def big(n_syl, n_dot):
         return '혀' + '어' * (n_syl - 2) + '엉' + '.' * n_dot
-    for name, (a, b) in (('surrogate-d800', (216, 256)), ('surrogate-dfff', (57343 // 7, 7)), ('beyond-10ffff', (1088, 1024)),
-                         ('last-scalar', (1114111 // 3, 3)), ('e000', (56, 1024))):
+    from .eng_optdiff import push_value
+    for name, n in (('d7ff', 0xD7FF), ('surrogate-d800', 0xD800), ('surrogate-dfff', 0xDFFF), ('e000', 0xE000),
+                    ('last-scalar', 0x10FFFF), ('beyond-10ffff', 0x110000)):
         for sink in ('.', '..'):
             progs.append(('enc-%s-%s' % (name, len(sink)),
-                          '혀어어어어엉............. 항%s %s 항%s 형... 항%s' % (sink, big(a, b), sink, sink)))
+                          '혀어어어어엉............. 항%s %s 항%s 형... 항%s' % (sink, push_value(n), sink, sink)))
     return progs
 
 
